@@ -32,6 +32,7 @@ type Exec struct {
 	flagOverride    map[string]Value
 	snaps           []snapRec
 	extUsed         map[string]bool
+	hexOf           map[*Term]*Term
 	stdInit         map[*ssa.Package]bool
 }
 
